@@ -31,6 +31,7 @@ from ..lib import CheckResult, MachineryError, Violation
 BACKENDS = ["serial", "cf_threadpool", "cf_procpool", "mp_pool"]
 MODEL_INVS = ["TypeOK", "WorkerBound", "ExactlyOnce", "OrderPreserved", "Reproducible", "Progress"]
 PY = sys.executable
+SMALL = min(4, int(os.environ.get("VERIF_TLC_WORKERS", "16")))      # small models run side by side: few TLC workers each
 
 
 # ----------------------------------------------------------------------------- TLC side
@@ -45,16 +46,16 @@ def tlc_models(tier):
     tasks, workers = range(0, nmax + 1), range(1, wmax + 1)
     jobs = {
         "gen": lambda: lib.run_tlc("ExecutorGen", lib.cfg(constants=model_consts(tasks, workers, True), invariants=MODEL_INVS,
-                                                           constraints=["Emit"]), lib.workdir("C65", "gen"), timeout=1500),
+                                                           constraints=["Emit"]), lib.workdir("C65", "gen"), timeout=1500, workers=SMALL),
         "anyorder": lambda: lib.run_tlc("Executor", lib.cfg(constants=model_consts(tasks, workers, False), invariants=MODEL_INVS),
                                         lib.workdir("C65", "anyorder"), timeout=1500),
         "bug": lambda: lib.run_tlc("Executor", lib.cfg(constants=model_consts(range(0, 4), range(1, 3), True,
                                                                               bug="collect-as-completed"),
-                                                       invariants=MODEL_INVS), lib.workdir("C65", "bug"), timeout=600),
+                                                       invariants=MODEL_INVS), lib.workdir("C65", "bug"), timeout=600, workers=2),
         "conv": lambda: lib.run_tlc("ExecConvGen", lib.cfg(constants={"Variants": "{0}" if tier == "quick" else "{0,1}",
                                                                       "Lens": "{0,1,3,5}" if tier == "quick" else "{0,1,2,3,5,8}"},
                                                            invariants=["AllDefined", "MapIsStarmapOfZip", "LengthLaw"],
-                                                           constraints=["Emit"]), lib.workdir("C65", "conv"), timeout=1500),
+                                                           constraints=["Emit"]), lib.workdir("C65", "conv"), timeout=1500, workers=SMALL),
     }
     with cf.ThreadPoolExecutor(4) as tp:
         futs = {k: tp.submit(f) for k, f in jobs.items()}
@@ -228,7 +229,7 @@ def _run(tier, rng, procs, big_w, t0):
                     add(f"{be}_w{s['w']}" if proc else be, be,
                         {"kind": "sched", "workers": s["w"], "persist": p, "api": api, "n": s["n"], "corder": s["corder"]},
                         {"kind": "sched", "api": api, "sched": s, "persist": p})
-    got = run_drivers(procs, jobs, timeout=400 if tier == "quick" else 1500)   # generous: a loaded machine is not a machinery failure
+    got = run_drivers(procs, jobs, timeout=900 if tier == "quick" else 3000)   # generous: a loaded machine is not a machinery failure
     t_drivers = time.time() - t0 - t_models
 
     # ---- collect
